@@ -64,6 +64,7 @@ func (vc *VC) smtText(o *Obl, cover bool) string {
 	var b strings.Builder
 	b.WriteString(smtPrelude)
 	eng := vc.eng
+	b.WriteString(eng.bitsDecls(vc.bitsExact))
 	// spec functions: all prepared ones (declarations are cheap; axioms only for used ones)
 	used := map[string]bool{}
 	var mark func(n string)
@@ -160,45 +161,69 @@ func solveOne(o *Obl, file string, cover bool, opts solveOpts) *Result {
 	if cover {
 		want = "sat"
 	}
-	// stage 1: fast path
-	st, out, ms := runSolver(solvers[0], file, opts.quickS)
-	if st == want {
-		return &Result{Obl: o, Status: st, Backend: solvers[0].name, Ms: ms, File: file}
-	}
-	if cover && st == "unsat" {
-		return &Result{Obl: o, Status: "unsat", Backend: solvers[0].name, Ms: ms, File: file, Output: out}
-	}
-	if !cover && st == "sat" && !strings.Contains(readFile(file), "forall") {
-		return &Result{Obl: o, Status: "sat", Backend: solvers[0].name, Ms: ms, File: file, Output: out}
-	}
-	// stage 2: portfolio
 	type r struct {
 		st, out, name string
 		ms            int64
 	}
-	ch := make(chan r, len(solvers))
-	for _, sc := range solvers[1:] {
-		sc := sc
-		go func() {
-			s, o2, m := runSolver(sc, file, opts.fullS)
-			ch <- r{s, o2, sc.name, m}
-		}()
-	}
-	best := r{st, out, solvers[0].name, ms}
-	for range solvers[1:] {
-		x := <-ch
-		if x.st == want {
-			return &Result{Obl: o, Status: x.st, Backend: x.name, Ms: x.ms + ms, File: file}
+	quantified := strings.Contains(readFile(file), "forall")
+	race := func(scs []solverCfg, timeoutS int) (r, bool) {
+		ch := make(chan r, len(scs))
+		for _, sc := range scs {
+			sc := sc
+			go func() {
+				s, o2, m := runSolver(sc, file, timeoutS)
+				ch <- r{s, o2, sc.name, m}
+			}()
 		}
-		if x.st == "sat" || x.st == "unsat" {
-			best = x
+		best := r{st: "unknown"}
+		for range scs {
+			x := <-ch
+			if x.st == want {
+				return x, true
+			}
+			if x.st == "sat" || x.st == "unsat" {
+				best = x
+			} else if best.st != "sat" && best.st != "unsat" {
+				if best.name == "" || x.st == "timeout" {
+					best = x
+				}
+			}
 		}
+		return best, false
 	}
-	if cover && best.st != "unsat" {
-		// covers: "unknown" is acceptable (cannot show vacuity); only unsat is a failure
-		return &Result{Obl: o, Status: "sat", Backend: best.name + "(unknown-accepted)", Ms: best.ms, File: file}
+	if cover {
+		// vacuity guard: only a refutation (unsat) is a failure; E-matching answers quickly
+		b, _ := race([]solverCfg{solvers[3]}, 2)
+		if b.st == "unsat" {
+			return &Result{Obl: o, Status: "unsat", Backend: b.name, Ms: b.ms, File: file, Output: b.out}
+		}
+		return &Result{Obl: o, Status: "sat", Backend: b.name + "(" + b.st + ")", Ms: b.ms, File: file}
 	}
-	return &Result{Obl: o, Status: best.st, Backend: best.name, Ms: best.ms + ms, File: file, Output: best.out}
+	// stage 1: z3 5.1 with default and with pure E-matching configuration
+	b1, ok := race([]solverCfg{solvers[0], solvers[3]}, opts.quickS)
+	if ok {
+		return &Result{Obl: o, Status: b1.st, Backend: b1.name, Ms: b1.ms, File: file}
+	}
+	if !cover && b1.st == "sat" && !quantified {
+		return &Result{Obl: o, Status: "sat", Backend: b1.name, Ms: b1.ms, File: file, Output: b1.out}
+	}
+	if cover && b1.st == "unsat" {
+		return &Result{Obl: o, Status: "unsat", Backend: b1.name, Ms: b1.ms, File: file, Output: b1.out}
+	}
+	if cover {
+		// covers: "unknown" is acceptable (vacuity not shown); only unsat is a failure
+		return &Result{Obl: o, Status: "sat", Backend: b1.name + "(unknown-accepted)", Ms: b1.ms, File: file}
+	}
+	// stage 2: the other back ends, longer limit
+	b2, ok := race([]solverCfg{solvers[1], solvers[2], solvers[0]}, opts.fullS)
+	if ok {
+		return &Result{Obl: o, Status: b2.st, Backend: b2.name, Ms: b2.ms + b1.ms, File: file}
+	}
+	best := b2
+	if b1.st == "sat" {
+		best = b1
+	}
+	return &Result{Obl: o, Status: best.st, Backend: best.name, Ms: best.ms + b1.ms, File: file, Output: best.out}
 }
 
 func readFile(f string) string {
